@@ -344,4 +344,8 @@ def check(ctx, rep):
     from .c10 import rule_accumulate_all
 
     rule_accumulate_all(ctx, rep)
+    from .c17 import rule_exec_order
+
+    # 'one result per executed codemod, in execution order': the report is compiled from the requested sequence, so the apply loop must follow it
+    rule_exec_order(ctx, rep)
     rep.not_covered += ["JSON-schema validity of pydantic's serialisation", "line numbers lying inside the file", "non-ASCII content"]
